@@ -7,9 +7,13 @@ From Coq Require Import List Arith Lia Permutation ZArith.
 Import ListNotations.
 Local Open Scope nat_scope.
 
-Definition RW (h : heap) (s : hwtiny) (ls : wtiny) : Prop :=
+Section WithOtherLists.
+(** the three lists of the cache may share the heap with other lists [Fx] (a clone next to its original) *)
+Variable Fx : list hlist.
+
+Definition RWx (h : heap) (s : hwtiny) (ls : wtiny) : Prop :=
   hw_tiny s = wt_tiny ls /\ hw_kh s = wt_kh ls /\
-  exists lw, RS [(hw_lru s, lw)] h (hw_slru s) (wt_slru ls) /\ Rl (hw_lru s) lw (wt_lru ls).
+  exists lw, RS ((hw_lru s, lw) :: Fx) h (hw_slru s) (wt_slru ls) /\ Rl (hw_lru s) lw (wt_lru ls).
 
 Ltac conj_split := repeat match goal with |- _ /\ _ => split end.
 
@@ -32,8 +36,8 @@ Qed.
 
 (** opening the relation: the three-list family *)
 Lemma rw_open h s ls :
-  RW h s ls ->
-  exists la lb lw, fam h [(hprob (hw_slru s), la); (hprot (hw_slru s), lb); (hw_lru s, lw)] [] /\
+  RWx h s ls ->
+  exists la lb lw, fam h ((hprob (hw_slru s), la) :: (hprot (hw_slru s), lb) :: (hw_lru s, lw) :: Fx) [] /\
     Rl (hprob (hw_slru s)) la (prob (wt_slru ls)) /\ Rl (hprot (hw_slru s)) lb (prot (wt_slru ls)) /\
     Rl (hw_lru s) lw (wt_lru ls) /\ hw_tiny s = wt_tiny ls /\ hw_kh s = wt_kh ls.
 Proof.
@@ -42,9 +46,9 @@ Proof.
 Qed.
 
 Lemma rw_close h t kh qw m lt lkh pw pm la lb lw :
-  fam h [(hprob m, la); (hprot m, lb); (qw, lw)] [] ->
+  fam h ((hprob m, la) :: (hprot m, lb) :: (qw, lw) :: Fx) [] ->
   Rl (hprob m) la (prob pm) -> Rl (hprot m) lb (prot pm) -> Rl qw lw pw -> t = lt -> kh = lkh ->
-  RW h (mkHwtiny t kh qw m) (mkWTiny lt pw pm lkh).
+  RWx h (mkHwtiny t kh qw m) (mkWTiny lt pw pm lkh).
 Proof.
   intros Hf (Ea & Eca) (Eb & Ecb) HRw Et Ek. split; [exact Et|]. split; [exact Ek|].
   exists lw. cbn [hw_lru hw_slru wt_lru wt_slru]. split; [|exact HRw]. exists la, lb. auto.
@@ -52,42 +56,42 @@ Qed.
 
 (** an operation of the segmented cache inside the three-list family *)
 Lemma rs_of_fam h m pm la lb qw lw :
-  fam h [(hprob m, la); (hprot m, lb); (qw, lw)] [] ->
-  Rl (hprob m) la (prob pm) -> Rl (hprot m) lb (prot pm) -> RS [(qw, lw)] h m pm.
+  fam h ((hprob m, la) :: (hprot m, lb) :: (qw, lw) :: Fx) [] ->
+  Rl (hprob m) la (prob pm) -> Rl (hprot m) lb (prot pm) -> RS ((qw, lw) :: Fx) h m pm.
 Proof. intros Hf (Ea & Eca) (Eb & Ecb). exists la, lb. auto. Qed.
 
-Lemma hs_len_eq h m pm Fx : RS Fx h m pm -> hs_len m = slen pm /\ hs_cap m = scap pm.
+Lemma hs_len_eq h m pm F0 : RS F0 h m pm -> hs_len m = slen pm /\ hs_cap m = scap pm.
 Proof.
   intros (la & lb & Hf & Ea & Eb & Eca & Ecb). unfold hs_len, hs_cap, slen, scap.
-  pose proof (fam_member h [] (hprob m) la ((hprot m, lb) :: Fx) [] Hf) as (_ & Hia & _).
-  pose proof (fam_member h [(hprob m, la)] (hprot m) lb Fx [] Hf) as (_ & Hib & _).
+  pose proof (fam_member h [] (hprob m) la ((hprot m, lb) :: F0) [] Hf) as (_ & Hia & _).
+  pose proof (fam_member h [(hprob m, la)] (hprot m) lb F0 [] Hf) as (_ & Hib & _).
   rewrite (idx_len _ _ Hia), (idx_len _ _ Hib). unfold llen. rewrite <- Ea, <- Eb, !entries_length. split; congruence.
 Qed.
 
 (** ** admission of the candidate the window pushed out *)
 Lemma hw_admit_refines h s ls qw' lw' pw' ck cv ls' r :
-  RS [(qw', lw')] h (hw_slru s) (wt_slru ls) -> Rl qw' lw' pw' ->
+  RS ((qw', lw') :: Fx) h (hw_slru s) (wt_slru ls) -> Rl qw' lw' pw' ->
   hw_tiny s = wt_tiny ls -> hw_kh s = wt_kh ls -> slru_inv (wt_slru ls) ->
   wt_admit ls pw' ck cv = Ok (ls', r) ->
-  exists h' s', hw_admit h s qw' ck cv = HOk (h', s', r) /\ RW h' s' ls'.
+  exists h' s', hw_admit h s qw' ck cv = HOk (h', s', r) /\ RWx h' s' ls'.
 Proof.
   destruct s as [t kh qw m]. destruct ls as [lt pw pm lkh]. cbn [hw_tiny hw_kh hw_lru hw_slru wt_tiny wt_kh wt_lru wt_slru].
   intros HRS HRw Et Ek Hinv E. subst lt lkh. unfold hw_admit, wt_admit in *.
   cbn [hw_tiny hw_kh hw_lru hw_slru hw_with wt_with wt_tiny wt_kh wt_lru wt_slru] in *.
   destruct (hs_len_eq _ _ _ _ HRS) as [El Ecap]. rewrite El, Ecap.
   assert (Hput : forall ls' r, (do (m', r) <- sput pm ck cv; Ok (mkWTiny t pw' m' kh, r)) = Ok (ls', r) ->
-                 exists h' s', (hdo (h1, m', r) <- hs_put h m ck cv; HOk (h1, mkHwtiny t kh qw' m', r)) = HOk (h', s', r) /\ RW h' s' ls').
+                 exists h' s', (hdo (h1, m', r) <- hs_put h m ck cv; HOk (h1, mkHwtiny t kh qw' m', r)) = HOk (h', s', r) /\ RWx h' s' ls').
   { intros ls2 r2 E2. destruct (hs_put_refines _ h m pm ck cv HRS Hinv) as (h' & m' & pm' & r' & -> & Es & HRS').
     rewrite Es in E2. cbn [bind] in E2. inversion E2; subst. cbn [hbind].
     do 2 eexists. split; [reflexivity|]. split; [reflexivity|]. split; [reflexivity|].
     exists lw'. cbn [hw_lru hw_slru wt_lru wt_slru]. auto. }
   destruct (Nat.ltb (slen pm) (scap pm)); [now apply Hput|].
   destruct HRS as (la & lb & Hf & Ea & Eb & Eca & Ecb).
-  pose proof (fam_step h [] (hprob m) la ((hprot m, lb) :: [(qw', lw')]) [] (prob pm) (HPeekLru None) Hf Ea Eca)
+  pose proof (fam_step h [] (hprob m) la ((hprot m, lb) :: (qw', lw') :: Fx) [] (prob pm) (HPeekLru None) Hf Ea Eca)
     as (h1 & q1 & l1 & Est & _). cbn [hstep lstep] in Est.
   destruct (h_peek_lru h (hprob m) None) as [[hh o]|e]; cbn [hbind] in Est; [|discriminate].
   unfold Lru.peek_lru_mut in Est. cbn [snd] in Est. inversion Est; subst. cbn [hbind].
-  assert (HRS : RS [(qw', lw')] h m pm) by (exists la, lb; auto).
+  assert (HRS : RS ((qw', lw') :: Fx) h m pm) by (exists la, lb; auto).
   destruct (peek_lru (prob pm)) as [[vk vv]|]; [|now apply Hput].
   destruct (tl_lt t (key_hash kh ck) (key_hash kh vk)) as [b|site]; cbn [bind of_res hbind] in *; [|discriminate].
   destruct b.
@@ -98,29 +102,29 @@ Qed.
 
 (** ** put *)
 Theorem hw_put_refines h s ls k v ls' r :
-  RW h s ls -> slru_inv (wt_slru ls) -> wput ls k v = Ok (ls', r) ->
-  exists h' s', hw_put h s k v = HOk (h', s', r) /\ RW h' s' ls'.
+  RWx h s ls -> slru_inv (wt_slru ls) -> wput ls k v = Ok (ls', r) ->
+  exists h' s', hw_put h s k v = HOk (h', s', r) /\ RWx h' s' ls'.
 Proof.
   intros HR Hinv E. destruct (rw_open h s ls HR) as (la & lb & lw & Hf & HRa & HRb & HRw & Et & Ek).
   destruct s as [t kh qw m]. destruct ls as [lt pw pm lkh].
   cbn [hw_tiny hw_kh hw_lru hw_slru wt_tiny wt_kh wt_lru wt_slru] in *. subst lt lkh.
   destruct m as [qa qb]. destruct pm as [pa pb]. cbn [hprob hprot prob prot] in *.
   unfold hw_put, wput in *. cbn [hw_tiny hw_kh hw_lru hw_slru hw_with wt_with wt_tiny wt_kh wt_lru wt_slru hprob hprot prob prot] in *.
-  destruct (fam_remove h [(qa, la); (qb, lb)] qw lw [] [] pw k Hf (proj1 HRw) (proj2 HRw))
+  destruct (fam_remove h [(qa, la); (qb, lb)] qw lw Fx [] pw k Hf (proj1 HRw) (proj2 HRw))
     as (h1 & qw1 & lw1 & -> & Hf1 & Ew1 & Ecw1 & _). cbn [hbind app] in *.
   destruct (remove_spec pw k) as [[_ Er]|(old & _ & Er)]; rewrite Er in *; cbn [fst snd] in *.
   - (* not in the window *)
-    assert (HRS : RS [(qw1, lw1)] h1 (mkHslru qa qb) (mkSlru pa pb)) by (apply (rs_of_fam h1 (mkHslru qa qb) (mkSlru pa pb) la lb qw1 lw1); auto).
+    assert (HRS : RS ((qw1, lw1) :: Fx) h1 (mkHslru qa qb) (mkSlru pa pb)) by (apply (rs_of_fam h1 (mkHslru qa qb) (mkSlru pa pb) la lb qw1 lw1); auto).
     rewrite (hs_contains_refines _ h1 _ _ k HRS). cbn [hbind].
     destruct (scontains (mkSlru pa pb) k).
     + destruct (hs_put_refines _ h1 _ _ k v HRS Hinv) as (h2 & m' & pm' & r' & -> & Es & HRS').
       rewrite Es in E. cbn [bind] in E. inversion E; subst. cbn [hbind].
       do 2 eexists. split; [reflexivity|]. split; [reflexivity|]. split; [reflexivity|].
       exists lw1. cbn [hw_lru hw_slru wt_lru wt_slru]. split; [exact HRS'|split; assumption].
-    + destruct (fam_put h1 [(qa, la); (qb, lb)] qw1 lw1 [] [] pw k v Hf1 Ew1 Ecw1)
+    + destruct (fam_put h1 [(qa, la); (qb, lb)] qw1 lw1 Fx [] pw k v Hf1 Ew1 Ecw1)
         as (h2 & qw2 & lw2 & -> & Hf2 & Ew2 & Ecw2 & _). cbn [hbind app] in *.
       destruct (Lru.put pw k v) as [[pw2 r2] cbs]. cbn [fst snd] in *.
-      assert (HRS2 : RS [(qw2, lw2)] h2 (mkHslru qa qb) (mkSlru pa pb)) by (apply (rs_of_fam h2 (mkHslru qa qb) (mkSlru pa pb) la lb qw2 lw2); auto).
+      assert (HRS2 : RS ((qw2, lw2) :: Fx) h2 (mkHslru qa qb) (mkSlru pa pb)) by (apply (rs_of_fam h2 (mkHslru qa qb) (mkSlru pa pb) la lb qw2 lw2); auto).
       destruct r2 as [|o|ck cv|ek ev o].
       * inversion E; subst. do 2 eexists. split; [reflexivity|]. apply rw_close with (la := la) (lb := lb) (lw := lw2); auto; split; assumption.
       * inversion E; subst. do 2 eexists. split; [reflexivity|]. apply rw_close with (la := la) (lb := lb) (lw := lw2); auto; split; assumption.
@@ -128,22 +132,22 @@ Proof.
         split; assumption.
       * inversion E; subst. do 2 eexists. split; [reflexivity|]. apply rw_close with (la := la) (lb := lb) (lw := lw2); auto; split; assumption.
   - (* window hit: the key goes to the protected segment, whose least recently used entry comes back *)
-    rewrite (Rl_len_gen qb lb pb h1 [(qa, la)] [(qw1, lw1)] [] Hf1 HRb).
+    rewrite (Rl_len_gen qb lb pb h1 [(qa, la)] ((qw1, lw1) :: Fx) [] Hf1 HRb).
     rewrite <- (proj2 HRb) in E.
     destruct (Nat.leb (hcap qb) (llen pb)).
-    + destruct (fam_remove_lru_gen h1 [(qa, la)] qb lb [(qw1, lw1)] [] pb Hf1 (proj1 HRb) (proj2 HRb))
+    + destruct (fam_remove_lru_gen h1 [(qa, la)] qb lb ((qw1, lw1) :: Fx) [] pb Hf1 (proj1 HRb) (proj2 HRb))
         as (h2 & qb1 & lb1 & -> & Hf2 & Eb1 & Ecb1 & _). cbn [hbind app] in *.
       destruct (Lru.remove_lru pb) as [[pb1 [[ek ev]|]] cbs]; cbn [fst snd bind] in *; [|discriminate].
-      destruct (fam_put h2 [(qa, la); (qb1, lb1)] qw1 lw1 [] [] _ ek ev Hf2 Ew1 Ecw1)
+      destruct (fam_put h2 [(qa, la); (qb1, lb1)] qw1 lw1 Fx [] _ ek ev Hf2 Ew1 Ecw1)
         as (h3 & qw2 & lw2 & -> & Hf3 & Ew2 & Ecw2 & _). cbn [hbind app] in *.
       destruct (Lru.put (with_items pw (remove_key k (items pw))) ek ev) as [[pw2 r2] cbs2]. cbn [fst snd bind] in *.
-      assert (HRS3 : RS [(qw2, lw2)] h3 (mkHslru qa qb1) (mkSlru pa pb1)) by (apply (rs_of_fam h3 (mkHslru qa qb1) (mkSlru pa pb1) la lb1 qw2 lw2); auto; split; auto).
+      assert (HRS3 : RS ((qw2, lw2) :: Fx) h3 (mkHslru qa qb1) (mkSlru pa pb1)) by (apply (rs_of_fam h3 (mkHslru qa qb1) (mkSlru pa pb1) la lb1 qw2 lw2); auto; split; auto).
       destruct (hs_put_protected_refines _ h3 _ _ k v HRS3) as (h4 & m4 & -> & HRS4). cbn [hbind].
       destruct (sput_protected (mkSlru pa pb1) k v) as [pm4 r4]. cbn [fst snd] in *. inversion E; subst.
       do 2 eexists. split; [reflexivity|]. split; [reflexivity|]. split; [reflexivity|].
       exists lw2. cbn [hw_lru hw_slru wt_lru wt_slru]. split; [exact HRS4|split; assumption].
     + cbn [bind hbind] in *.
-      assert (HRS3 : RS [(qw1, lw1)] h1 (mkHslru qa qb) (mkSlru pa pb)) by (apply (rs_of_fam h1 (mkHslru qa qb) (mkSlru pa pb) la lb qw1 lw1); auto).
+      assert (HRS3 : RS ((qw1, lw1) :: Fx) h1 (mkHslru qa qb) (mkSlru pa pb)) by (apply (rs_of_fam h1 (mkHslru qa qb) (mkSlru pa pb) la lb qw1 lw1); auto).
       destruct (hs_put_protected_refines _ h1 _ _ k v HRS3) as (h4 & m4 & -> & HRS4). cbn [hbind].
       destruct (sput_protected (mkSlru pa pb) k v) as [pm4 r4]. cbn [fst snd] in *. inversion E; subst.
       do 2 eexists. split; [reflexivity|]. split; [reflexivity|]. split; [reflexivity|].
@@ -152,18 +156,18 @@ Qed.
 
 (** ** get / get_mut, peek, peek_mut, contains, remove, purge *)
 Theorem hw_get_mut_refines h s ls k w ls' r :
-  RW h s ls -> slru_inv (wt_slru ls) -> wget_mut ls k w = Ok (ls', r) ->
-  exists h' s', hw_get_mut h s k w = HOk (h', s', r) /\ RW h' s' ls'.
+  RWx h s ls -> slru_inv (wt_slru ls) -> wget_mut ls k w = Ok (ls', r) ->
+  exists h' s', hw_get_mut h s k w = HOk (h', s', r) /\ RWx h' s' ls'.
 Proof.
   intros HR Hinv E. destruct (rw_open h s ls HR) as (la & lb & lw & Hf & HRa & HRb & HRw & Et & Ek).
   destruct s as [t kh qw m]. destruct ls as [lt pw pm lkh].
   cbn [hw_tiny hw_kh hw_lru hw_slru wt_tiny wt_kh wt_lru wt_slru] in *. subst lt lkh.
   unfold hw_get_mut, wget_mut, wt_record in *. cbn [hw_tiny hw_kh hw_lru hw_slru hw_with wt_with wt_tiny wt_kh wt_lru wt_slru] in *.
   destruct (tl_increment (tl_try_reset t) (key_hash kh k)) as [t'|site]; cbn [bind of_res hbind] in *; [|discriminate].
-  destruct (fam_get_mut h [(hprob m, la); (hprot m, lb)] qw lw [] [] pw k w Hf (proj1 HRw) (proj2 HRw))
+  destruct (fam_get_mut h [(hprob m, la); (hprot m, lb)] qw lw Fx [] pw k w Hf (proj1 HRw) (proj2 HRw))
     as (h1 & lw1 & -> & Hf1 & Ew1 & Ecw1 & _). cbn [hbind app] in *.
   destruct (get_mut_spec pw k w) as [[_ Eg]|(v0 & _ & Eg)]; rewrite Eg in *; cbn [fst snd] in *.
-  - assert (HRS : RS [(qw, lw1)] h1 m pm) by (apply (rs_of_fam h1 m pm la lb qw lw1); auto).
+  - assert (HRS : RS ((qw, lw1) :: Fx) h1 m pm) by (apply (rs_of_fam h1 m pm la lb qw lw1); auto).
     destruct (hs_get_mut_refines _ h1 m pm k w HRS Hinv) as (h2 & m' & pm' & r' & -> & Es & HRS').
     rewrite Es in E. cbn [bind] in E. inversion E; subst. cbn [hbind].
     do 2 eexists. split; [reflexivity|]. split; [reflexivity|]. split; [reflexivity|].
@@ -172,35 +176,35 @@ Proof.
     destruct m as [qa qb]. destruct pm as [pa pb]. apply rw_close with (la := la) (lb := lb) (lw := lw1); auto. split; assumption.
 Qed.
 
-Theorem hw_peek_refines h s ls k : RW h s ls -> hw_peek h s k = HOk (wpeek ls k).
+Theorem hw_peek_refines h s ls k : RWx h s ls -> hw_peek h s k = HOk (wpeek ls k).
 Proof.
   intros HR. destruct (rw_open h s ls HR) as (la & lb & lw & Hf & HRa & HRb & HRw & Et & Ek).
   unfold hw_peek, wpeek.
-  rewrite (fam_peek h [(hprob (hw_slru s), la); (hprot (hw_slru s), lb)] (hw_lru s) lw [] [] (wt_lru ls) k Hf (proj1 HRw)). cbn [hbind].
+  rewrite (fam_peek h [(hprob (hw_slru s), la); (hprot (hw_slru s), lb)] (hw_lru s) lw Fx [] (wt_lru ls) k Hf (proj1 HRw)). cbn [hbind].
   destruct (peek (wt_lru ls) k); [reflexivity|].
-  apply (hs_peek_refines [(hw_lru s, lw)]). apply (rs_of_fam h _ _ la lb (hw_lru s) lw); auto.
+  apply (hs_peek_refines ((hw_lru s, lw) :: Fx)). apply (rs_of_fam h _ _ la lb (hw_lru s) lw); auto.
 Qed.
 
-Theorem hw_contains_refines h s ls k : RW h s ls -> hw_contains h s k = HOk (wcontains ls k).
+Theorem hw_contains_refines h s ls k : RWx h s ls -> hw_contains h s k = HOk (wcontains ls k).
 Proof.
   intros HR. destruct (rw_open h s ls HR) as (la & lb & lw & Hf & HRa & HRb & HRw & Et & Ek).
   unfold hw_contains, wcontains.
-  rewrite (fam_contains h [(hprob (hw_slru s), la); (hprot (hw_slru s), lb)] (hw_lru s) lw [] [] (wt_lru ls) k Hf (proj1 HRw)). cbn [hbind].
+  rewrite (fam_contains h [(hprob (hw_slru s), la); (hprot (hw_slru s), lb)] (hw_lru s) lw Fx [] (wt_lru ls) k Hf (proj1 HRw)). cbn [hbind].
   destruct (contains (wt_lru ls) k); [reflexivity|].
-  apply (hs_contains_refines [(hw_lru s, lw)]). apply (rs_of_fam h _ _ la lb (hw_lru s) lw); auto.
+  apply (hs_contains_refines ((hw_lru s, lw) :: Fx)). apply (rs_of_fam h _ _ la lb (hw_lru s) lw); auto.
 Qed.
 
 Theorem hw_peek_mut_refines h s ls k w :
-  RW h s ls -> exists h', hw_peek_mut h s k w = HOk (h', snd (wpeek_mut ls k w)) /\ RW h' s (fst (wpeek_mut ls k w)).
+  RWx h s ls -> exists h', hw_peek_mut h s k w = HOk (h', snd (wpeek_mut ls k w)) /\ RWx h' s (fst (wpeek_mut ls k w)).
 Proof.
   intros HR. destruct (rw_open h s ls HR) as (la & lb & lw & Hf & HRa & HRb & HRw & Et & Ek).
   destruct s as [t kh qw m]. destruct ls as [lt pw pm lkh].
   cbn [hw_tiny hw_kh hw_lru hw_slru wt_tiny wt_kh wt_lru wt_slru] in *. subst lt lkh.
   unfold hw_peek_mut, wpeek_mut. cbn [hw_tiny hw_kh hw_lru hw_slru hw_with wt_with wt_tiny wt_kh wt_lru wt_slru].
-  destruct (fam_peek_mut h [(hprob m, la); (hprot m, lb)] qw lw [] [] pw k w Hf (proj1 HRw) (proj2 HRw))
+  destruct (fam_peek_mut h [(hprob m, la); (hprot m, lb)] qw lw Fx [] pw k w Hf (proj1 HRw) (proj2 HRw))
     as (h1 & lw1 & -> & Hf1 & Ew1 & Ecw1 & _). cbn [hbind app] in *.
   destruct (peek_mut_spec pw k w) as [[_ Eg]|(v0 & _ & Eg)]; rewrite Eg in *; cbn [fst snd] in *.
-  - assert (HRS : RS [(qw, lw1)] h1 m pm) by (apply (rs_of_fam h1 m pm la lb qw lw1); auto).
+  - assert (HRS : RS ((qw, lw1) :: Fx) h1 m pm) by (apply (rs_of_fam h1 m pm la lb qw lw1); auto).
     destruct (hs_peek_mut_refines _ h1 m pm k w HRS) as (h2 & -> & HRS').
     destruct (speek_mut pm k w) as [pm' r']. cbn [fst snd] in *.
     exists h2. split; [reflexivity|]. split; [reflexivity|]. split; [reflexivity|].
@@ -210,16 +214,16 @@ Proof.
 Qed.
 
 Theorem hw_remove_refines h s ls k :
-  RW h s ls -> exists h' s', hw_remove h s k = HOk (h', s', snd (wremove ls k)) /\ RW h' s' (fst (wremove ls k)).
+  RWx h s ls -> exists h' s', hw_remove h s k = HOk (h', s', snd (wremove ls k)) /\ RWx h' s' (fst (wremove ls k)).
 Proof.
   intros HR. destruct (rw_open h s ls HR) as (la & lb & lw & Hf & HRa & HRb & HRw & Et & Ek).
   destruct s as [t kh qw m]. destruct ls as [lt pw pm lkh].
   cbn [hw_tiny hw_kh hw_lru hw_slru wt_tiny wt_kh wt_lru wt_slru] in *. subst lt lkh.
   unfold hw_remove, wremove. cbn [hw_tiny hw_kh hw_lru hw_slru hw_with wt_with wt_tiny wt_kh wt_lru wt_slru].
-  destruct (fam_remove h [(hprob m, la); (hprot m, lb)] qw lw [] [] pw k Hf (proj1 HRw) (proj2 HRw))
+  destruct (fam_remove h [(hprob m, la); (hprot m, lb)] qw lw Fx [] pw k Hf (proj1 HRw) (proj2 HRw))
     as (h1 & qw1 & lw1 & -> & Hf1 & Ew1 & Ecw1 & _). cbn [hbind app] in *.
   destruct (remove_spec pw k) as [[_ Eg]|(v0 & _ & Eg)]; rewrite Eg in *; cbn [fst snd] in *.
-  - assert (HRS : RS [(qw1, lw1)] h1 m pm) by (apply (rs_of_fam h1 m pm la lb qw1 lw1); auto).
+  - assert (HRS : RS ((qw1, lw1) :: Fx) h1 m pm) by (apply (rs_of_fam h1 m pm la lb qw1 lw1); auto).
     destruct (hs_remove_refines _ h1 m pm k HRS) as (h2 & m' & -> & HRS').
     destruct (sremove pm k) as [pm' r']. cbn [fst snd hbind] in *.
     do 2 eexists. split; [reflexivity|]. split; [reflexivity|]. split; [reflexivity|].
@@ -229,60 +233,22 @@ Proof.
 Qed.
 
 Theorem hw_purge_refines h s ls :
-  RW h s ls -> exists h' s', hw_purge h s = HOk (h', s') /\ RW h' s' (wpurge ls).
+  RWx h s ls -> exists h' s', hw_purge h s = HOk (h', s') /\ RWx h' s' (wpurge ls).
 Proof.
   intros HR. destruct (rw_open h s ls HR) as (la & lb & lw & Hf & HRa & HRb & HRw & Et & Ek).
   destruct s as [t kh qw m]. destruct ls as [lt pw pm lkh].
   cbn [hw_tiny hw_kh hw_lru hw_slru wt_tiny wt_kh wt_lru wt_slru] in *. subst lt lkh.
   unfold hw_purge, wpurge. cbn [hw_tiny hw_kh hw_lru hw_slru hw_with wt_with wt_tiny wt_kh wt_lru wt_slru].
-  destruct (fam_purge h [(hprob m, la); (hprot m, lb)] qw lw [] [] pw Hf (proj1 HRw) (proj2 HRw))
+  destruct (fam_purge h [(hprob m, la); (hprot m, lb)] qw lw Fx [] pw Hf (proj1 HRw) (proj2 HRw))
     as (h1 & qw1 & lw1 & -> & Hf1 & Ew1 & Ecw1 & _). cbn [hbind app] in *.
-  assert (HRS : RS [(qw1, lw1)] h1 m pm) by (apply (rs_of_fam h1 m pm la lb qw1 lw1); auto).
+  assert (HRS : RS ((qw1, lw1) :: Fx) h1 m pm) by (apply (rs_of_fam h1 m pm la lb qw1 lw1); auto).
   destruct (hs_purge_refines _ h1 m pm HRS) as (h2 & m' & -> & HRS'). cbn [hbind].
   do 2 eexists. split; [reflexivity|]. split; [reflexivity|]. split; [reflexivity|].
   exists lw1. cbn [hw_lru hw_slru wt_lru wt_slru]. split; [exact HRS'|split; assumption].
 Qed.
 
-(** ** new, Drop, histories *)
-Theorem hw_new_refines t kh wc pc fc :
-  RW (fst (hw_new heap0 t kh wc pc fc)) (snd (hw_new heap0 t kh wc pc fc))
-     (mkWTiny t (lru_new wc false) (slru_new pc fc) kh).
-Proof.
-  unfold hw_new, hs_new.
-  destruct (fam_new heap0 [] pc fam_empty) as (F1 & C1 & _).
-  destruct (hnew heap0 pc) as [h1 qa]. cbn [fst snd] in *.
-  destruct (fam_new h1 [(qa, [])] fc F1) as (F2 & C2 & _).
-  destruct (hnew h1 fc) as [h2 qb]. cbn [fst snd] in *.
-  destruct (fam_new h2 [(qb, []); (qa, [])] wc F2) as (F3 & C3 & _).
-  destruct (hnew h2 wc) as [h3 qw]. cbn [fst snd] in *.
-  apply rw_close with (la := []) (lb := []) (lw := []); cbn [hprob hprot prob prot slru_new lru_new]; auto;
-    try (split; [reflexivity|cbn; congruence]).
-  destruct F3 as [Hwf Hnd Hfl Htight]. constructor.
-  - intros q l [E|[E|[E|[]]]]; apply Hwf; [right; right; now left|right; now left|now left].
-  - eapply Permutation_NoDup; [|exact Hnd]. cbn [flat_map fp fst snd addrs map app].
-    change [hhead qw; htail qw; hhead qb; htail qb; hhead qa; htail qa]
-      with ([hhead qw; htail qw] ++ [hhead qb; htail qb] ++ [hhead qa; htail qa]).
-    change [hhead qa; htail qa; hhead qb; htail qb; hhead qw; htail qw]
-      with ([hhead qa; htail qa] ++ [hhead qb; htail qb] ++ [hhead qw; htail qw]).
-    rewrite (app_assoc [hhead qw; htail qw]).
-    etransitivity; [apply Permutation_app_comm|]. apply Permutation_app_head. apply Permutation_app_comm.
-  - exact Hfl.
-  - intros a Ha. apply Htight. intros Hc. apply Ha. cbn [flat_map fp fst snd addrs map app In] in *. tauto.
-Qed.
-
-Theorem hw_drop_ok h s ls : RW h s ls -> exists h', hw_drop h s = HOk h' /\ forall a, cells h' a = Free.
-Proof.
-  intros HR. destruct (rw_open h s ls HR) as (la & lb & lw & Hf & _).
-  unfold hw_drop, hs_drop.
-  destruct (fam_drop h [(hprob (hw_slru s), la); (hprot (hw_slru s), lb)] (hw_lru s) lw [] Hf) as (h1 & -> & Hf1 & _).
-  cbn [hbind app] in *.
-  destruct (fam_drop h1 [] (hprob (hw_slru s)) la [(hprot (hw_slru s), lb)] Hf1) as (h2 & -> & Hf2 & _). cbn [hbind app] in *.
-  destruct (fam_drop h2 [] (hprot (hw_slru s)) lb [] Hf2) as (h3 & -> & Hf3 & _). cbn [app] in *.
-  exists h3. split; [reflexivity|]. intros a. apply (fam_tight _ _ _ Hf3). intros [].
-Qed.
-
 (** ** [Clone for WTinyLFUCache] *)
-Lemma RW_wclone h s ls : RW h s ls -> wt_inv ls -> wclone ls = ls.
+Lemma RW_wclone h s ls : RWx h s ls -> wt_inv ls -> wclone ls = ls.
 Proof.
   intros (Et & Ek & lw & HRS & (Elw & Clw)) (_ & _ & Hlw & Hm & _).
   pose proof (RS_sclone _ _ _ _ HRS Hm) as Es.
@@ -293,8 +259,8 @@ Proof.
 Qed.
 
 Theorem hw_clone_refines h s ls :
-  RW h s ls -> wt_inv ls ->
-  exists h' s', hw_clone_replace h s = HOk (h', s') /\ RW h' s' (wclone ls).
+  RWx h s ls -> wt_inv ls ->
+  exists h' s', hw_clone_replace h s = HOk (h', s') /\ RWx h' s' (wclone ls).
 Proof.
   intros HR Hinv. rewrite (RW_wclone h s ls HR Hinv).
   destruct HR as (Et & Ek & lw & (la & lb & Hf & Ea & Eb & Ca & Cb) & (Elw & Clw)).
@@ -303,23 +269,23 @@ Proof.
   assert (La : length la <= hcap (hprob (hw_slru s))) by (rewrite Ca, <- entries_len, Ea; exact Hla).
   assert (Lb : length lb <= hcap (hprot (hw_slru s))) by (rewrite Cb, <- entries_len, Eb; exact Hlb).
   set (A := (hprob (hw_slru s), la)) in *. set (B := (hprot (hw_slru s), lb)) in *. set (W := (hw_lru s, lw)) in *.
-  unfold hw_clone_replace.
+  unfold hw_clone_replace, hw_clone.
   destruct (h_clone_in h _ (hw_lru s) lw Hf (or_intror (or_intror (or_introl eq_refl))) Lw)
     as (h1 & qw & lw' & -> & Hf1 & Ew' & Cw' & _ & _ & _). cbn [hbind].
   destruct (hs_clone_ok h1 _ (hw_slru s) la lb Hf1 (or_intror (or_introl eq_refl)) (or_intror (or_intror (or_introl eq_refl))) La Lb)
     as (h2 & m & la' & lb' & -> & Hf2 & Ea' & Eb' & Ca' & Cb' & _). cbn [hbind].
   set (A' := (hprob m, la')) in *. set (B' := (hprot m, lb')) in *. set (W' := (qw, lw')) in *.
   unfold hw_drop, hs_drop.
-  destruct (fam_drop_perm h2 _ (hw_lru s) lw [B'; A'; W'; A; B] Hf2) as (h3 & -> & Hf3 & _).
-  { apply Permutation_sym. exact (Permutation_middle [B'; A'; W'; A; B] [] W). }
+  destruct (fam_drop_perm h2 _ (hw_lru s) lw (B' :: A' :: W' :: A :: B :: Fx) Hf2) as (h3 & -> & Hf3 & _).
+  { apply Permutation_sym. exact (Permutation_middle [B'; A'; W'; A; B] Fx W). }
   cbn [hbind].
-  destruct (fam_drop_perm h3 _ (hprob (hw_slru s)) la [B'; A'; W'; B] Hf3) as (h4 & -> & Hf4 & _).
-  { apply Permutation_sym. exact (Permutation_middle [B'; A'; W'] [B] A). }
+  destruct (fam_drop_perm h3 _ (hprob (hw_slru s)) la (B' :: A' :: W' :: B :: Fx) Hf3) as (h4 & -> & Hf4 & _).
+  { apply Permutation_sym. exact (Permutation_middle [B'; A'; W'] (B :: Fx) A). }
   cbn [hbind].
-  destruct (fam_drop_perm h4 _ (hprot (hw_slru s)) lb [B'; A'; W'] Hf4) as (h5 & -> & Hf5 & _).
-  { apply Permutation_sym. exact (Permutation_middle [B'; A'; W'] [] B). }
+  destruct (fam_drop_perm h4 _ (hprot (hw_slru s)) lb (B' :: A' :: W' :: Fx) Hf4) as (h5 & -> & Hf5 & _).
+  { apply Permutation_sym. exact (Permutation_middle [B'; A'; W'] Fx B). }
   cbn [hbind]. do 2 eexists. split; [reflexivity|].
-  unfold RW, hw_with. cbn [hw_tiny hw_kh hw_lru hw_slru]. split; [exact Et|]. split; [exact Ek|].
+  unfold RWx, hw_with. cbn [hw_tiny hw_kh hw_lru hw_slru]. split; [exact Et|]. split; [exact Ek|].
   exists lw'. split.
   - exists la', lb'. split; [exact (fam_perm _ _ _ _ Hf5 (perm_swap _ _ _))|]. repeat split; congruence.
   - split; congruence.
@@ -338,8 +304,8 @@ Definition lw_step (s : wtiny) (o : wop) : res (wtiny * hout) :=
   end.
 
 Theorem wtiny_step_refines h s ls o :
-  RW h s ls -> wt_inv ls ->
-  exists h' s' ls' r, hw_step h s o = HOk (h', s', r) /\ lw_step ls o = Ok (ls', r) /\ RW h' s' ls' /\ wt_inv ls'.
+  RWx h s ls -> wt_inv ls ->
+  exists h' s' ls' r, hw_step h s o = HOk (h', s', r) /\ lw_step ls o = Ok (ls', r) /\ RWx h' s' ls' /\ wt_inv ls'.
 Proof.
   intros HR Hinv. pose proof Hinv as (_ & _ & _ & Hm & _). destruct o as [k v|k w|k|k w|k|k| |]; cbn [hw_step lw_step].
   - destruct (wput_ok ls k v Hinv) as (ls' & r & E & Hinv' & _).
@@ -364,13 +330,96 @@ Fixpoint lw_run (s : wtiny) (os : list wop) : res (wtiny * list hout) :=
   | o :: rest => do (s1, r) <- lw_step s o; do (s2, rs) <- lw_run s1 rest; Ok (s2, r :: rs)
   end.
 
-Lemma wtiny_run_refines : forall os h s ls, RW h s ls -> wt_inv ls ->
-            exists h1 s1 ls1 outs, hw_run h s os = HOk (h1, s1, outs) /\ lw_run ls os = Ok (ls1, outs) /\ RW h1 s1 ls1.
+Lemma wtiny_run_refines : forall os h s ls, RWx h s ls -> wt_inv ls ->
+            exists h1 s1 ls1 outs, hw_run h s os = HOk (h1, s1, outs) /\ lw_run ls os = Ok (ls1, outs) /\ RWx h1 s1 ls1.
 Proof.
  induction os as [|o rest IH]; intros h s ls HR Hinv; [cbn; eauto 10|].
     cbn [hw_run lw_run].
     destruct (wtiny_step_refines h s ls o HR Hinv) as (h1 & s1 & ls1 & r & -> & -> & HR1 & Hinv1). cbn [hbind bind].
     destruct (IH h1 s1 ls1 HR1 Hinv1) as (h2 & s2 & ls2 & outs & -> & -> & HR2). cbn [hbind bind]. eauto 10.
+Qed.
+
+End WithOtherLists.
+
+(** ** independence of a clone (C16): after [hw_clone] clone and original stand side by side in the heap; whatever
+    history the clone goes through, the original is the same abstract cache on the same nodes *)
+Theorem wtiny_clone_independent Fx h s ls os :
+  RWx Fx h s ls -> wt_inv ls ->
+  exists h1 s1, hw_clone h s = HOk (h1, s1) /\
+  exists h2 s1' ls1 outs, hw_run h1 s1 os = HOk (h2, s1', outs) /\ lw_run ls os = Ok (ls1, outs) /\
+  exists la' lb' lw', RWx ((hprob (hw_slru s1'), la') :: (hprot (hw_slru s1'), lb') :: (hw_lru s1', lw') :: Fx) h2 s ls.
+Proof.
+  intros HR Hinv. pose proof HR as (Et & Ek & lw & (la & lb & Hf & Ea & Eb & Ca & Cb) & (Elw & Clw)).
+  pose proof Hinv as (_ & _ & Hlw & (_ & _ & Hla & Hlb & _) & _).
+  assert (Lw : length lw <= hcap (hw_lru s)) by (rewrite Clw, <- entries_len, Elw; exact Hlw).
+  assert (La : length la <= hcap (hprob (hw_slru s))) by (rewrite Ca, <- entries_len, Ea; exact Hla).
+  assert (Lb : length lb <= hcap (hprot (hw_slru s))) by (rewrite Cb, <- entries_len, Eb; exact Hlb).
+  set (A := (hprob (hw_slru s), la)) in *. set (B := (hprot (hw_slru s), lb)) in *. set (W := (hw_lru s, lw)) in *.
+  unfold hw_clone.
+  destruct (h_clone_in h _ (hw_lru s) lw Hf (or_intror (or_intror (or_introl eq_refl))) Lw)
+    as (h1 & qw & lw1 & -> & Hf1 & Ew1 & Cw1 & _ & _ & _). cbn [hbind].
+  destruct (hs_clone_ok h1 _ (hw_slru s) la lb Hf1 (or_intror (or_introl eq_refl)) (or_intror (or_intror (or_introl eq_refl))) La Lb)
+    as (h2 & m & la1 & lb1 & -> & Hf2 & Ea1 & Eb1 & Ca1 & Cb1 & _). cbn [hbind].
+  do 2 eexists. split; [reflexivity|].
+  set (s1 := hw_with s (hw_tiny s) qw m).
+  assert (HR1 : RWx (A :: B :: W :: Fx) h2 s1 ls).
+  { subst s1. unfold RWx, hw_with. cbn [hw_tiny hw_kh hw_lru hw_slru]. split; [exact Et|]. split; [exact Ek|].
+    exists lw1. split; [|split; congruence].
+    exists la1, lb1. split; [|repeat split; congruence].
+    eapply fam_perm; [exact Hf2|].
+    (* B' :: A' :: W' :: rest  ~  A' :: B' :: W' :: rest *)
+    apply perm_swap. }
+  destruct (wtiny_run_refines (A :: B :: W :: Fx) os h2 s1 ls HR1 Hinv) as (h3 & s1' & ls1 & outs & E1 & E2 & HR1').
+  exists h3, s1', ls1, outs. split; [exact E1|]. split; [exact E2|].
+  destruct HR1' as (_ & _ & lw' & (la' & lb' & Hf3 & _) & _).
+  exists la', lb', lw'. unfold RWx. split; [exact Et|]. split; [exact Ek|].
+  exists lw. split; [|split; assumption].
+  exists la, lb. split; [|repeat split; assumption].
+  eapply fam_perm; [exact Hf3|].
+  set (A' := (hprob (hw_slru s1'), la')). set (B' := (hprot (hw_slru s1'), lb')). set (W' := (hw_lru s1', lw')).
+  change (Permutation ([A'; B'; W'] ++ [A; B; W] ++ Fx) ([A; B; W] ++ [A'; B'; W'] ++ Fx)).
+  rewrite !app_assoc. apply Permutation_app_tail. apply Permutation_app_comm.
+Qed.
+
+(** the cache alone in its heap *)
+Notation RW := (RWx []).
+
+(** ** new, Drop, histories *)
+Theorem hw_new_refines t kh wc pc fc :
+  RW (fst (hw_new heap0 t kh wc pc fc)) (snd (hw_new heap0 t kh wc pc fc))
+     (mkWTiny t (lru_new wc false) (slru_new pc fc) kh).
+Proof.
+  unfold hw_new, hs_new.
+  destruct (fam_new heap0 [] pc fam_empty) as (F1 & C1 & _).
+  destruct (hnew heap0 pc) as [h1 qa]. cbn [fst snd] in *.
+  destruct (fam_new h1 [(qa, [])] fc F1) as (F2 & C2 & _).
+  destruct (hnew h1 fc) as [h2 qb]. cbn [fst snd] in *.
+  destruct (fam_new h2 [(qb, []); (qa, [])] wc F2) as (F3 & C3 & _).
+  destruct (hnew h2 wc) as [h3 qw]. cbn [fst snd] in *.
+  apply (rw_close []) with (la := []) (lb := []) (lw := []); cbn [hprob hprot prob prot slru_new lru_new]; auto;
+    try (split; [reflexivity|cbn; congruence]).
+  destruct F3 as [Hwf Hnd Hfl Htight]. constructor.
+  - intros q l [E|[E|[E|[]]]]; apply Hwf; [right; right; now left|right; now left|now left].
+  - eapply Permutation_NoDup; [|exact Hnd]. cbn [flat_map fp fst snd addrs map app].
+    change [hhead qw; htail qw; hhead qb; htail qb; hhead qa; htail qa]
+      with ([hhead qw; htail qw] ++ [hhead qb; htail qb] ++ [hhead qa; htail qa]).
+    change [hhead qa; htail qa; hhead qb; htail qb; hhead qw; htail qw]
+      with ([hhead qa; htail qa] ++ [hhead qb; htail qb] ++ [hhead qw; htail qw]).
+    rewrite (app_assoc [hhead qw; htail qw]).
+    etransitivity; [apply Permutation_app_comm|]. apply Permutation_app_head. apply Permutation_app_comm.
+  - exact Hfl.
+  - intros a Ha. apply Htight. intros Hc. apply Ha. cbn [flat_map fp fst snd addrs map app In] in *. tauto.
+Qed.
+
+Theorem hw_drop_ok h s ls : RW h s ls -> exists h', hw_drop h s = HOk h' /\ forall a, cells h' a = Free.
+Proof.
+  intros HR. destruct (rw_open [] h s ls HR) as (la & lb & lw & Hf & _).
+  unfold hw_drop, hs_drop.
+  destruct (fam_drop h [(hprob (hw_slru s), la); (hprot (hw_slru s), lb)] (hw_lru s) lw [] Hf) as (h1 & -> & Hf1 & _).
+  cbn [hbind app] in *.
+  destruct (fam_drop h1 [] (hprob (hw_slru s)) la [(hprot (hw_slru s), lb)] Hf1) as (h2 & -> & Hf2 & _). cbn [hbind app] in *.
+  destruct (fam_drop h2 [] (hprot (hw_slru s)) lb [] Hf2) as (h3 & -> & Hf3 & _). cbn [app] in *.
+  exists h3. split; [reflexivity|]. intros a. apply (fam_tight _ _ _ Hf3). intros [].
 Qed.
 
 Theorem wtiny_history_safe t kh wc pc fc os :
@@ -381,7 +430,7 @@ Theorem wtiny_history_safe t kh wc pc fc os :
     hw_drop h s = HOk h' /\ (forall a, cells h' a = Free).
 Proof.
   intros Hinv0.
-  pose proof wtiny_run_refines as G.
+  pose proof (wtiny_run_refines []) as G.
   destruct (G os _ _ _ (hw_new_refines t kh wc pc fc) Hinv0) as (h & s & ls & outs & E1 & E2 & HR).
   destruct (hw_drop_ok h s ls HR) as (h' & Ed & Hall).
   exists h, s, ls, outs, h'. auto.
